@@ -1,7 +1,8 @@
 // Verification overlay of pkg/db/internal/engine: an in-memory ordered key/value engine with the
 // same API and the same observable semantics as the thin Pebble wrapper it replaces (copied keys
 // and values, atomic batches applied in staging order, half-open spans, stable snapshots,
-// iterators over the view taken at creation). It carries no durability or crash behaviour.
+// iterators over the view taken at creation). It carries no durability or crash behaviour unless a
+// harness switches on the crash model at the end of this file (ZZCrashTrack; used by C09 only).
 // Stores are registered by path so that Close followed by Open sees the committed data.
 package engine
 
@@ -26,6 +27,9 @@ type memKV struct {
 
 type memStore struct {
 	rows []memKV // sorted by key (bytewise)
+	// crash is nil unless a harness tracks the commits of this store (crash model at the end of this
+	// file); with crash == nil the store behaves exactly as before the crash model was added.
+	crash *memCrashState
 }
 
 var memStores = map[string]*memStore{}
@@ -152,6 +156,9 @@ func (e *DB) Get(key []byte) ([]byte, bool, error) {
 	if e == nil || e.pdb == nil {
 		return nil, false, dberrors.ErrClosed
 	}
+	if e.pdb.crash != nil && e.pdb.crash.dead {
+		return nil, false, errMemCrashed
+	}
 	v, ok := e.pdb.get(key)
 	return v, ok, nil
 }
@@ -169,6 +176,9 @@ func (e *DB) NewIter(span Span, opts IterOptions) (*Iter, error) {
 	if e == nil || e.pdb == nil {
 		return nil, dberrors.ErrClosed
 	}
+	if e.pdb.crash != nil && e.pdb.crash.dead {
+		return nil, errMemCrashed
+	}
 	return &Iter{iter: &memIter{rows: e.pdb.view(span), pos: -1}}, nil
 }
 
@@ -183,4 +193,161 @@ func ZZDump(path string) (keys [][]byte, values [][]byte) {
 		values = append(values, memCopy(r.value))
 	}
 	return keys, values
+}
+
+// ---------------------------------------------------------------------------------------------
+// Crash model (added for C09; inert unless a harness calls ZZCrashTrack on a store).
+//
+// It implements the documented contract of the engine underneath (Pebble), taken as an axiom:
+//   (A1) a batch commit is atomic: a recovered store contains all or none of its operations;
+//   (A2) commits become durable in commit order: a recovered store is the content at tracking start
+//        plus a PREFIX of the commits issued since;
+//   (A3) a commit with sync=true that returned nil is durable, and so is every commit before it;
+//        commits after the last synced one may be lost, as a suffix, at a power loss. A process kill
+//        loses nothing that was committed.
+// ZZCrashArm makes the (afterCommits+1)-th commit from now fail as if the process died just BEFORE
+// it was applied; from then on every call on the store fails (the process is gone). ZZCrashRestart
+// registers a NEW live store under the path whose content is the recovered content; handles on the
+// old store stay dead.
+
+// memCommitRec is one committed batch: its operations in staging order and its sync flag.
+type memCommitRec struct {
+	ops  []memOp
+	sync bool
+}
+
+type memCrashState struct {
+	base    []memKV        // content when tracking started
+	commits []memCommitRec // every commit applied since, in commit order
+	armed   bool
+	allow   int  // commits still admitted before the crash point (when armed)
+	dead    bool // the process died: every later call on this store fails
+}
+
+func memCopyRows(rows []memKV) []memKV {
+	out := make([]memKV, len(rows))
+	for i, r := range rows {
+		out[i] = memKV{key: memCopy(r.key), value: memCopy(r.value)}
+	}
+	return out
+}
+
+// admit is called by Batch.Commit before the batch is applied.
+func (c *memCrashState) admit(ops []memOp, sync bool) error {
+	if c.dead {
+		return errMemCrashed
+	}
+	if c.armed {
+		if c.allow <= 0 {
+			c.dead = true
+			return errMemCrashed
+		}
+		c.allow--
+	}
+	c.commits = append(c.commits, memCommitRec{ops: ops, sync: sync})
+	return nil
+}
+
+// durable returns the number of recorded commits covered by a synced commit (A3).
+func (c *memCrashState) durable() int {
+	n := 0
+	for i, rec := range c.commits {
+		if rec.sync {
+			n = i + 1
+		}
+	}
+	return n
+}
+
+func (s *memStore) applyOps(ops []memOp) {
+	for _, op := range ops {
+		switch op.kind {
+		case 0:
+			s.set(op.key, op.value)
+		case 1:
+			s.del(op.key)
+		case 2:
+			s.delRange(op.key, op.end)
+		}
+	}
+}
+
+// ZZCrashTrack starts (or restarts) recording the commits of the store registered under path.
+func ZZCrashTrack(path string) {
+	st := memStores[path]
+	if st == nil {
+		st = &memStore{}
+		memStores[path] = st
+	}
+	st.crash = &memCrashState{base: memCopyRows(st.rows)}
+}
+
+// ZZCrashArm: the (afterCommits+1)-th commit from now on the tracked store fails before it is
+// applied, and every later call on that store fails.
+func ZZCrashArm(path string, afterCommits int) {
+	if st := memStores[path]; st != nil && st.crash != nil {
+		st.crash.armed = true
+		st.crash.allow = afterCommits
+	}
+}
+
+// ZZCrashDisarm removes a crash point that was not reached.
+func ZZCrashDisarm(path string) {
+	if st := memStores[path]; st != nil && st.crash != nil {
+		st.crash.armed = false
+	}
+}
+
+// ZZCrashDead reports whether the armed crash point was reached (the store is dead).
+func ZZCrashDead(path string) bool {
+	st := memStores[path]
+	return st != nil && st.crash != nil && st.crash.dead
+}
+
+// ZZCrashCommits returns, for the tracked store, the number of commits applied since tracking
+// started and how many of them are durable under A3 (covered by a synced commit).
+func ZZCrashCommits(path string) (applied int, durable int) {
+	st := memStores[path]
+	if st == nil || st.crash == nil {
+		return 0, 0
+	}
+	return len(st.crash.commits), st.crash.durable()
+}
+
+// ZZCrashSynced reports the sync flag of the i-th commit (0-based) applied since tracking started.
+func ZZCrashSynced(path string, i int) bool {
+	st := memStores[path]
+	if st == nil || st.crash == nil || i < 0 || i >= len(st.crash.commits) {
+		return false
+	}
+	return st.crash.commits[i].sync
+}
+
+// ZZCrashRestart models the stop and the restart: the tracked store dies (if it has not yet) and a
+// new live store is registered under path with content = content at tracking start + the durable
+// commits + the first keepUnsynced commits after the last synced one. keepUnsynced >= the number of
+// un-synced tail commits is a process kill (nothing committed is lost); smaller values are a power
+// loss. It returns the number of applied commits that were lost. The new store is tracked from its
+// recovered content.
+func ZZCrashRestart(path string, keepUnsynced int) (lost int) {
+	st := memStores[path]
+	if st == nil || st.crash == nil {
+		return 0
+	}
+	cs := st.crash
+	cs.dead = true
+	n := cs.durable()
+	if keepUnsynced > 0 {
+		n += keepUnsynced
+	}
+	if n > len(cs.commits) {
+		n = len(cs.commits)
+	}
+	ns := &memStore{rows: memCopyRows(cs.base)}
+	for _, rec := range cs.commits[:n] {
+		ns.applyOps(rec.ops)
+	}
+	ns.crash = &memCrashState{base: memCopyRows(ns.rows)}
+	memStores[path] = ns
+	return len(cs.commits) - n
 }
